@@ -15,7 +15,7 @@ import aave_lib as AL
 from aaverisk_lib import Case, Exact, close, TOL
 
 PROPERTY = "C12"
-LEAN_MODULES = ["Proofs.C12", "Proofs.C12.Admitted", "Proofs.C12.Loop", "Proofs.C12.Pick", "Proofs.C12.Refine", "Proofs.C12.RefineStep", "Proofs.C12.RefineLoop",
+LEAN_MODULES = ["Proofs.C12", "Proofs.C12.Admitted", "Proofs.C12.Reachable", "Proofs.C12.Loop", "Proofs.C12.Pick", "Proofs.C12.Refine", "Proofs.C12.RefineStep", "Proofs.C12.RefineLoop",
                 "Proofs.C12.DebtCheck", "Proofs.C12.RefineUpdate", "Proofs.C12.Units", "Proofs.C12.Round35"]
 DRIVERS = ["driver_aaverisk"]
 RULE = ("portfolios over the uppercase symbols of the four risk-parameter CSVs: 1-3 collateral supplies (+ optional non-collateral supply), "
